@@ -84,3 +84,10 @@ func VerifH_serial_aesgcmsiv() {
 	verifrt.Assert(err == nil, "NewKey")
 	verifh.CheckKeyRoundTrip(k, &keySerializer{}, &keyParser{}, &parametersSerializer{}, &parametersParser{}, pk, id, typeURL, tinkpb.KeyData_SYMMETRIC)
 }
+
+func VerifH_c18_aesgcmsiv() {
+	verifrt.EngineOnly()
+	internalaead.VerifDotSummary()
+	a, _, _ := build()
+	verifh.CheckAEADShared(a)
+}
